@@ -450,6 +450,55 @@ def positional_at_call_sites(sources: Dict[str, str]) -> Dict[str, str]:
     return out
 
 
+def rename_private_params(sources: Dict[str, str]) -> Dict[str, str]:
+    """Every parameter of every private function / method (name starts with one underscore, defined exactly once in
+    the package, not overriding anything by name) gets a new name; keyword arguments at its call sites follow."""
+    trees = {p: ast.parse(s) for p, s in sources.items()}
+    defs: Dict[str, list] = {}
+    for tree in trees.values():
+        for n in ast.walk(tree):
+            if isinstance(n, (ast.FunctionDef, ast.AsyncFunctionDef, ast.ClassDef)):
+                defs.setdefault(n.name, []).append(n)
+    renames: Dict[str, Dict[str, str]] = {}
+    for name, ds in defs.items():
+        if len(ds) != 1 or not isinstance(ds[0], (ast.FunctionDef, ast.AsyncFunctionDef)):
+            continue
+        if not name.startswith("_") or name.startswith("__") or ds[0].decorator_list:
+            continue
+        d = ds[0]
+        mp = {}
+        for a in d.args.posonlyargs + d.args.args + d.args.kwonlyargs:
+            if a.arg in ("self", "cls"):
+                continue
+            mp[a.arg] = a.arg + "_p"
+        # nested functions / lambdas / comprehensions inside may capture the names: rename all Name nodes in the body
+        inner_defs = [x for x in ast.walk(d) if x is not d and isinstance(x, (ast.FunctionDef, ast.AsyncFunctionDef, ast.Lambda))]
+        shadow = {a.arg for x in inner_defs for a in x.args.args + x.args.kwonlyargs}
+        mp = {k: v for k, v in mp.items() if k not in shadow}
+        if not mp:
+            continue
+        for a in d.args.posonlyargs + d.args.args + d.args.kwonlyargs:
+            if a.arg in mp:
+                a.arg = mp[a.arg]
+        for x in ast.walk(d):
+            if isinstance(x, ast.Name) and x.id in mp:
+                x.id = mp[x.id]
+        renames[name] = mp
+    for tree in trees.values():
+        for n in ast.walk(tree):
+            if isinstance(n, ast.Call):
+                nm = n.func.id if isinstance(n.func, ast.Name) else n.func.attr if isinstance(n.func, ast.Attribute) else None
+                if nm in renames:
+                    for k in n.keywords:
+                        if k.arg in renames[nm]:
+                            k.arg = renames[nm][k.arg]
+    out = {}
+    for p, tree in trees.items():
+        ast.fix_missing_locations(tree)
+        out[p] = ast.unparse(tree)
+    return out
+
+
 def rename_all_locals(sources: Dict[str, str]) -> Dict[str, str]:
     out = {}
     for p, s in sources.items():
@@ -513,6 +562,8 @@ def _worker(args):
             overlay = sort_methods(sources)
         elif m.old == "<positional-at-call-sites>":
             overlay = positional_at_call_sites(sources)
+        elif m.old == "<rename-private-params>":
+            overlay = rename_private_params(sources)
         elif m.old == "<keywords-at-call-sites>":
             overlay = keywords_at_call_sites(sources)
         elif m.old == "<swap-if-else>":
@@ -557,6 +608,7 @@ GENERIC = [
     M("put a logging call at the start of every function", "", None, "<log-at-function-start>", "", kind="equiv"),
     M("positional arguments of package calls written as keywords", "", None, "<keywords-at-call-sites>", "", kind="equiv"),
     M("leading keyword arguments of package calls written positionally", "", None, "<positional-at-call-sites>", "", kind="equiv"),
+    M("rename every parameter of every private function / method (keyword arguments at call sites follow)", "", None, "<rename-private-params>", "", kind="equiv"),
     M("methods of every class in reverse source order", "", None, "<reverse-methods>", "", kind="equiv"),
     M("swap the branches of every plain if/else under the negated test", "", None, "<swap-if-else>", "", kind="equiv"),
     M("annotate every local that is assigned once (x = v  ->  x: object = v)", "", None, "<annotate-single-assignments>", "", kind="equiv"),
